@@ -24,6 +24,15 @@ def stepC26 (s : DS) (fs : List String) : DS × String :=
       let (c', v) := handle s.cfg s.c e
       ({ s with c := c' }, s!"{verdictStr v} len={c'.entries.length}")
     | _, _ => (s, "bad-op")
+  | ["hmsg", _kind, now, sender, nonce, ts, mac] =>
+    -- handler level: the wire collapses every rejection reason
+    match int? now, int? ts with
+    | some now, some ts =>
+      let e : Ev := { now := now, msg := { key := sender ++ "\x00" ++ nonce, ts := ts, macOk := mac == "1" } }
+      let (c', v) := handle s.cfg s.c e
+      let w := if v == .accepted then "accepted" else "rejected"
+      ({ s with c := c' }, s!"{w} len={c'.entries.length}")
+    | _, _ => (s, "bad-op")
   | _ => (s, "bad-op")
 
 def main : IO Unit := Arc.Proto.run stepC26 {}
